@@ -1044,7 +1044,13 @@ class Interp(object):
                 raise Raised(ex, node)
         if isinstance(op, (ast.In, ast.NotIn)):
             if isinstance(b, (list, tuple, set, frozenset, dict)):
+                # membership in a list that deliberately mixes enumeration classes is fine as long as
+                # the list holds at least one member of the operand's own class
+                nn = len(self.run.path.notes)
                 eqs = [self.compare(ast.Eq(), a, x, node) for x in b]
+                ca = a.cls if isinstance(a, SV) and a.kind == 'enum' else None
+                if ca is not None and any(isinstance(x, ca) for x in b):
+                    del self.run.path.notes[nn:]
                 ts = [term(x) if isinstance(x, SV) else z3.BoolVal(bool(x)) for x in eqs]
                 r = SV('bool', z3.Or(*ts) if ts else z3.BoolVal(False))
                 return SV('bool', z3.Not(r.t)) if isinstance(op, ast.NotIn) else r
